@@ -313,13 +313,19 @@ def gen_history(rng, tree, nops):
         elif r < 0.8:
             p = rng.choice(poss)
             v = copy.deepcopy(rng.choice(VALUES))
-            ops.append({"op": "set", "pos": list(p), "xp": X.render(rng, ref, p), "v": v})
+            hid = []
+            ops.append({"op": "set", "pos": list(p), "xp": X.render(rng, ref, p, hidden=0.05, hidden_at=hid), "v": v})
             X.get_at(ref, p[:-1])[p[-1]] = copy.deepcopy(v)
+            if hid:
+                ops[-1]["hid"] = hid
         else:
             p = rng.choice(poss)
             rec = rng.random() < 0.3
-            ops.append({"op": "del", "pos": list(p), "xp": X.render(rng, ref, p), "rec": rec})
+            hid = []
+            ops.append({"op": "del", "pos": list(p), "xp": X.render(rng, ref, p, hidden=0.05, hidden_at=hid), "rec": rec})
             ref_delete(ref, list(p), rec)
+            if hid:
+                ops[-1]["hid"] = hid
     return ops
 
 
@@ -479,9 +485,13 @@ def valid_case(c):
                     return False
                 ref_create(ref, op["base"], steps, 0)
             elif op["op"] == "set":
+                if any(isinstance(X.get_at(ref, op["pos"][:k]), list) for k in op.get("hid", [])):
+                    return False
                 X.get_at(ref, op["pos"])
                 X.get_at(ref, op["pos"][:-1])[op["pos"][-1]] = copy.deepcopy(op["v"])
             elif op["op"] == "del":
+                if any(isinstance(X.get_at(ref, op["pos"][:k]), list) for k in op.get("hid", [])):
+                    return False
                 X.get_at(ref, op["pos"])
                 ref_delete(ref, op["pos"], op["rec"])
             else:
